@@ -149,11 +149,15 @@ Reference Reference::Parse(std::string_view refStr) {
 
 std::vector<Reference> Reference::ExtractAll(const std::string_view text) {
   std::vector<Reference> result{};
-  for (auto position = NextReference(text); position.has_value();
-    position = NextReference(text, position->finish)) {
+  // Note: malformed marker is plain text and should not hide references nested in it
+  static constexpr StrPos markerLen = 2; // marker string: "@{"
+  for (auto position = NextReference(text); position.has_value(); ) {
     if (auto ref = Reference::Parse(Substr(text, position.value())); ref.IsValid()) {
       ref.position = position.value();
       result.emplace_back(std::move(ref));
+      position = NextReference(text, position->finish);
+    } else {
+      position = NextReference(text, position->start + markerLen);
     }
   }
   return result;
